@@ -1152,7 +1152,7 @@ def drop_case(v, shape, N, opts):
         arr = [("a", a_kind), ("b", "int")]
         obj = v.frame(arr, N, labels="l", distinct_labels=True)
         schema = pa.Column(float, Check.ge(lo), nullable=nullable, unique=unique_a, report_duplicates=rd, coerce=coerce, name="a", drop_invalid_rows=True)
-    elif shape in ("frame", "frame_wide", "frame_wide3", "frame_joint", "frame_index", "model"):
+    elif shape in ("frame", "frame_wide", "frame_wide3", "frame_joint", "frame_sets", "frame_nfc", "frame_index", "model"):
         arr = [("a", a_kind), ("b", "int")]
         # frame_wide: the dataframe-level check compares a with b; its treatment of null rows is C19's subject, so a is null-free here
         # frame_wide3: a third, nullable column that the check does not look at (its nulls must not shield a failing row)
@@ -1164,6 +1164,9 @@ def drop_case(v, shape, N, opts):
             kw["checks"] = Check(lambda d: d["a"] >= d["b"], ignore_na=True)
         if shape == "frame_joint":
             kw["unique"] = ["a", "b"]
+            kw["report_duplicates"] = rd
+        if shape == "frame_sets":  # two uniqueness declarations: rows duplicated in a, and rows duplicated in b
+            kw["unique"] = [["a"], ["b"]]
             kw["report_duplicates"] = rd
         if shape == "frame_index":
             kw["index"] = pa.Index(int, Check.ge(v.int("ilo")))
@@ -1177,7 +1180,9 @@ def drop_case(v, shape, N, opts):
 
             schema = M
         else:
-            cols_ = {"a": pa.Column(float, Check.ge(lo), nullable=nullable, unique=unique_a, report_duplicates=rd, coerce=coerce),
+            # frame_nfc: the check reports at most one failure case (n_failure_cases limits the REPORT, not the set of invalid rows)
+            cols_ = {"a": pa.Column(float, Check.ge(lo, **({"n_failure_cases": 1} if shape == "frame_nfc" else {})), nullable=nullable, unique=unique_a,
+                                    report_duplicates=rd, coerce=coerce),
                      "b": pa.Column(int, Check.isin([1, 2, 3]))}
             if shape == "frame_wide3":
                 cols_["c"] = pa.Column(float, nullable=True)
@@ -1204,6 +1209,11 @@ def drop_case(v, shape, N, opts):
         xb, nb = cells["b"]
         jd = O.dup_rows(N, lambda i, j: z3.And(O.eq_cell(xa, na, i, j), O.eq_cell(xb, nb, i, j)), rd)
         bad = [z3.Or(b, d) for b, d in zip(bad, jd)]
+    if shape == "frame_sets":
+        xb, nb = cells["b"]
+        da = O.dup_rows(N, lambda i, j: O.eq_cell(xa, na, i, j), rd)
+        db = O.dup_rows(N, lambda i, j: O.eq_cell(xb, nb, i, j), rd)
+        bad = [z3.Or(b, d1, d2) for b, d1, d2 in zip(bad, da, db)]
     asserts = [("drop/channel", v.holds(channel_ok(o))), ("drop/returns", v.holds(o["kind"] == "accept")),
                ("drop/input_unchanged", H.equal_to_snapshot(v, obj, snap))]
     facts = dict(kind=o["kind"], reasons=o.get("reasons"), msg=o.get("msg"))
